@@ -679,6 +679,22 @@ def po_file(charset, body):
             b'"Content-Type: text/plain; charset=' + charset.encode('ascii', 'replace') + b'\\n"\n"Content-Transfer-Encoding: 8bit\\n"\n\n'
             b'msgid "a"\nmsgstr "' + body + b'"\n')
 
+def mo_file(charset, body):
+    """a minimal little-endian MO file: the header entry declaring the charset, and one message"""
+    import struct
+    entries = [(b'', b'Content-Type: text/plain; charset=' + charset.encode('ascii', 'replace') + b'\n'), (b'a', body)]
+    n = len(entries)
+    data_off = 28 + 16 * n
+    blob, otab, ttab = b'', [], []
+    for k, v in entries:
+        otab.append((len(k), data_off + len(blob))); blob += k + b'\0'
+    for k, v in entries:
+        ttab.append((len(v), data_off + len(blob))); blob += v + b'\0'
+    out = struct.pack('<7I', 0x950412de, 0, n, 28, 28 + 8 * n, 0, 0)
+    for l, o in otab + ttab:
+        out += struct.pack('<2I', l, o)
+    return out + blob
+
 def falsify_loader(chk, names):
     """every codec the tool classifies ASCII-compatible must load a file: text, or `broken-encoding`, never a crash"""
     import tempfile, shutil
@@ -705,10 +721,12 @@ def falsify_loader(chk, names):
     try:
         for codec, n in sorted(compat.items()):
             bodies = [b'x.xn--a', b'\\056\\170\\156\\055\\055\\141'] if codec in ('idna', 'punycode') or chk.rng.random() < 0.15 else []
-            for body in bodies:
-                path = os.path.join(d, 't.po')
+            files = [('t.po', po_file(n, body)) for body in bodies] + [('t.mo', mo_file(n, body)) for body in bodies[:1]]
+            for fname, content in files:
+                body = content[-40:]
+                path = os.path.join(d, fname)
                 with open(path, 'wb') as f:
-                    f.write(po_file(n, body))
+                    f.write(content)
                 try:
                     c, calls = H.make_checker(path)
                     c.check()
@@ -716,7 +734,7 @@ def falsify_loader(chk, names):
                 except Exception as exc:
                     stats['e2e:crash'] += 1
                     cex.append({'kind': 'check-crash-on-load', 'key': f'loader-e2e:{codec}', 'charset': n, 'body': body.hex(),
-                                'observed': f'{type(exc).__name__}: {exc}', 'replay': 'i18nspector on a PO file with this charset and msgstr body'})
+                                'observed': f'{type(exc).__name__}: {exc}', 'file': fname, 'replay': 'i18nspector on a PO/MO file with this charset and msgstr body'})
     finally:
         shutil.rmtree(d, ignore_errors=True)
     chk.coverage.setdefault('falsifier', {})['loader'] = dict(stats)
